@@ -123,8 +123,11 @@ class Run:
                        "rerun": "VERIF_SEED=%d ./check %s --tier %s" % (seed(), self.pid, self.tier),
                        "case": replay}, f, indent=1, default=_js)
         self.violations.append((key, what, path))
-        print("VIOLATION property=%s replay=%s" % (self.pid, path), flush=True)
-        print("  key=%s :: %s" % (key, what), flush=True)
+        if len(self.violations) <= 25:
+            print("VIOLATION property=%s replay=%s" % (self.pid, path), flush=True)
+            print("  key=%s :: %s" % (key[:400], what[:600]), flush=True)
+        elif len(self.violations) == 26:
+            print("  (further violations are counted and written to evidence/replay, not printed)", flush=True)
 
     def model_drift(self, what):
         self.drift.append(what)
